@@ -295,7 +295,7 @@ pub fn defs() -> Vec<PropDef> {
         },
         PropDef {
             id: "C09", salt: 9, budget: (300, 5_000, 50), spec: spec_c09,
-            required: &[("c09.exit_states_sampled", 1), ("c09.exit_withdraw_ok", 1), ("c09.exit_states_dust", 1), ("c09.paired_fault_runs", 1), ("c09.traces_checked", 1)],
+            required: &[("c09.exit_states_sampled", 1), ("c09.exit_withdraw_ok", 1), ("c09.exit_states_dust", 1), ("c09.staggered_second_claim_paid", 1), ("c09.paired_fault_runs", 1), ("c09.traces_checked", 1)],
             rule: "full-world histories; cases are (a) exit dry-runs (unbond -> epoch -> undelegate -> unbonding -> withdraw) from sampled reachable states for every holder, token and three amounts, (b) each exit-type operation re-run under 15 swap/oracle failure patterns; distinct = (kind, token / op, decades, dust state?, rate class)",
         },
         PropDef {
